@@ -293,6 +293,25 @@ def vector_from_line(ln, i):
 
 # ------------------------------------------------------------------ the check
 
+def tlaps_quorum(work):
+    """Thorough tier extra: the BFT lemmas for ALL n (not only the wire range), discharged by TLAPS (spec/QuorumProofs.tla)."""
+    import re
+    import shutil
+    import subprocess
+    d = os.path.join(work, "tlaps")
+    os.makedirs(d, exist_ok=True)
+    shutil.copy(os.path.join(vlib.SPEC, "QuorumProofs.tla"), d)
+    try:
+        p = subprocess.run(["tlapm", "--threads", "8", "QuorumProofs.tla"], cwd=d, stdout=subprocess.PIPE, stderr=subprocess.STDOUT, timeout=600)
+    except (OSError, subprocess.TimeoutExpired) as e:
+        return {"status": "not run: %s" % e}
+    out = p.stdout.decode("utf-8", "replace")
+    m = re.search(r"All (\d+) obligations? proved", out)
+    if not m:
+        raise vlib.Broken("TLAPS did not prove the unbounded quorum lemmas (spec-level problem):\n" + out[-1500:])
+    return {"status": "proved", "obligations": int(m.group(1)), "theorems": ["ExceedsTwoThirdsAll", "AtMostAllAll", "IntersectAll", "MinimalAll"]}
+
+
 def run(prop, tier, replay=None):
     t0 = time.time()
     work = vlib.scratch(prop)
@@ -568,6 +587,8 @@ def run(prop, tier, replay=None):
         cov["observations_with_prestored_vaa"] = dict(Counter("%s:%s" % (ln["a"]["stored"], "signed" if ln["s"].get("storeGuardianSigned") else "ignored") for ln in st))
         cov["two_step_histories"] = sum(1 for ln in lines if ln["ev"] == "Redigest")
     if prop == "C07":
+        if tier == "thorough" and not replay:
+            cov["tlaps_unbounded_lemmas"] = tlaps_quorum(work)
         cov["explorer_pushes_with_two_sets"] = sum(1 for ln in lines if "sets" in ln["a"])
         cov["exhaustive"] = not replay          # the wire range n = 0..255 is enumerated completely for all programs
     cov.update(extra_cov)
